@@ -105,6 +105,33 @@ def multi_shape_cases(rng, count):
     return cases
 
 
+def deep_huffman_case(Q, rng, dt="u32", many=False):
+    """A chunk of 4096*Q numbers whose optimal Huffman tree is 17+ levels deep while one wide range
+    holds almost everything: (rare value, frequent value) pairs occupying exactly whole
+    1/4096-quantiles so that every value keeps a range of its own, with Fibonacci-like
+    counts, plus evenly spread distinct values over the rest of the type."""
+    w = lib.UBITS[dt]
+    N = 4096 * Q
+    if many:
+        rares = [1, 1, 2, 3, 5, 8, 13, 21, 34, 55, 89, 144, 233, 377]
+        ms = [2] * 14 + [4, 6, 10, 16, 26]
+    else:
+        rares = [1, 1, 2, 3, 5]
+        ms = [1, 2, 3, 5, 8, 13, 21, 34, 55, 89, 144, 233, 377, 610, 987]
+    us = []
+    base = 0
+    for i, m in enumerate(ms):
+        r = min(rares[i], 2 * Q - 1) if i < len(rares) else 0
+        us += [base] * r + [base + 4096] * (m * Q - r)
+        base += 8192
+    c = N - len(us)
+    lo, hi = 1 << 21, (1 << w) - 1
+    us += [lo + (hi - lo) * t // (c - 1) for t in range(c)]
+    rng.shuffle(us)
+    # GCD detection off: with it the lattice of pair values is folded into fewer ranges and the tree stays at 16 levels
+    return dict(dt=dt, level=12, order=0, gcds=0, chunks=[[numgen.of_u(dt, u) for u in us]], shape="deep-huffman")
+
+
 def corpus_cases():
     """minimised past failures, always run first"""
     out = []
